@@ -499,7 +499,7 @@ impl<'a> Hist<'a> {
     }
 }
 
-fn http_get(addr: SocketAddr, path: &str) -> Option<(u16, Vec<u8>)> {
+pub fn http_get(addr: SocketAddr, path: &str) -> Option<(u16, Vec<u8>)> {
     let mut s = TcpStream::connect_timeout(&addr, Duration::from_secs(2)).ok()?;
     s.set_read_timeout(Some(Duration::from_secs(2))).ok()?;
     s.write_all(format!("GET {} HTTP/1.1\r\nHost: x\r\nConnection: close\r\n\r\n", path).as_bytes()).ok()?;
